@@ -42,6 +42,7 @@ type Config struct {
 	DumpSMT      string
 	AbstractTime bool
 	NoSlice      bool
+	NoPOR        bool
 }
 
 type PathOpts struct {
@@ -484,6 +485,7 @@ func runPath(prog *ssa.Program, cfg *Config, harness *ssa.Function, prefix []int
 		initDone: map[*ssa.Package]bool{}, nameCount: map[string]int{}, maxPreempt: cfg.MaxPreempt,
 		wantCoverModels: cfg.CoverModels}
 	ip.curModel = model
+	ip.sleep = map[*GoR]bool{}
 	ip.opt = &PathOpts{MapOrderAll: cfg.MapOrderAll, SymbolicNow: cfg.SymbolicNow}
 	ip.res = &PathResult{Asserts: map[string]int{}, Concrete: map[string]int{}, Covers: map[string]bool{},
 		CoverModels: map[string]map[string]interface{}{}}
